@@ -1,3 +1,4 @@
+import AmVerif.Gen.TabFacts
 import AmVerif.Gen.Skel
 import AmVerif.Lemmas.Reload
 /-!
